@@ -163,6 +163,10 @@ for _p in ("C17", "C19"):
          " ObjFormat transcribes the binary format: BinRead (chunk grammar, little-endian fields, 64-bit quantities as 16-bit limbs, strict UTF-8, last-wins maps, line blocks disjoint and ending below 2^64) and BinWrite over any order of the hash-map tables. MC_ObjFormat model-checks that every object of a universe of about 6 900 objects reads back as itself in every table order, and that the reader is total on every file of up to 2 (thorough: 3) chunks out of 18 cut at any length with one byte replaced (700 k / 18 M files), whatever it accepts being written and read back equal. TV_Fmt gives the real writer's bytes of assembled and linked objects to BinRead (WrittenForView) and compares the real reader with BinRead on random, mutated and adversarially structured files (accept/reject and the object built), then the real writer's output for every accepted object.")
 _aug("C18", " + TLC: TxtFormat, the text format as a specification (MC_TxtFormat: round trip over an object universe with exotic sources; TV_Fmt: the real writer's text equals TxtWrite byte for byte, TxtRead reads it back)",
      " TxtFormat transcribes the text format: TxtWrite gives the exact text of an object (sorted tables, column widths counted in characters, char::escape_default of the source cells, the two dividers of .DEBUG) and TxtRead reads texts of that shape. MC_TxtFormat model-checks the round trip for every object of a universe with sources containing quotes, backslashes, TAB, CR LF, control and non-ASCII characters, ' | ' and lines starting with '#', '=', '.'. TV_Fmt requires the real writer's text of every assembled and linked object to equal TxtWrite byte for byte and TxtRead to read it back as the object.")
+_aug("C13", " + RP: TLC (MC_RunRP) prints every maximal behaviour with up to 2/3 free calls; each is replayed on the real simulator and validated by TLC",
+     " RP: MC_RunRP prints each maximal behaviour (breakpoint set, calls, run until halted: 185, thorough 1 500); the harness performs them on real simulators and TV_Machine validates every call against Run!RunCall, the last one leaving the machine halted.")
+_aug("C12", " + RP: the programs of MC_TrapMode (one/two fragments) replayed on the real simulator under both trap modes and validated by TLC",
+     " RP: TLC prints the words of every program it checks (one fragment; thorough: two), the harness runs each on real simulators under virtual and real traps from the model's start state, and TV_Pairs / TV_Machine validate the recorded runs.")
 _aug("C28", " + one machine stepped 8 700 / 70 000 times in a row (TV_Machine 'long')",
      " A `long` leg steps one simulator 8 700 (thorough: 70 000) times (prologue executed once, long loop, rare excursions) so that whatever the observer keeps across its per-step clear is exposed.")
 _aug("C01", "; the statements read are required to equal the generator's intent (`written`)", " Every generated program travels with the statements the generator meant; `written` requires the real parser's statements to equal them, so the image is the encoding of the source text and not only of the parser's output.")
